@@ -292,7 +292,7 @@ def check_c04(tier, seed, replay=None):
                 jobs.append((P, seed + 104729 * rep + P, a, min(a + chunk, ncases)))
     def one(j):
         P, sd, a, e = j
-        mpirun.run_mpi_cases(agg, b, sd, P, a, e, dict(max_n=T(tier, 22, 26), layout='mixed'), T(tier, 300, 900), 'h_mpi:P=%d' % P, MPI_ENTRIES)
+        mpirun.run_mpi_cases(agg, b, sd, P, a, e, dict(max_n=T(tier, 22, 26), layout='mixed', long_cycles_permille=T(tier, 30, 5)), T(tier, 300, 900), 'h_mpi:P=%d' % P, MPI_ENTRIES)
     with ThreadPoolExecutor(max_workers=T(tier, 8, 6)) as ex:
         list(ex.map(one, jobs))
     v.absorb(agg)
@@ -368,7 +368,7 @@ def check_c07(tier, seed, replay=None):
     am = lib.Agg()
     menv = dict(os.environ, ASAN_OPTIONS='detect_leaks=0:halt_on_error=1:abort_on_error=0:exitcode=99:hard_rss_limit_mb=6000', UBSAN_OPTIONS='print_stacktrace=1:halt_on_error=1')
     for P in T(tier, [2, 3], [1, 2, 3, 5]):
-        mpirun.run_mpi_cases(am, bm, sd + P, P, 0, T(tier, 12, 120), dict(max_n=T(tier, 14, 20), layout='natural'), T(tier, 300, 900), 'h_mpi(asan):P=%d' % P, MPI_ENTRIES, env=menv)
+        mpirun.run_mpi_cases(am, bm, sd + P, P, 0, T(tier, 12, 120), dict(max_n=T(tier, 14, 20), layout='natural', long_cycles_permille=0), T(tier, 300, 900), 'h_mpi(asan):P=%d' % P, MPI_ENTRIES, env=menv)
     # crashes of an MPI job surface as '<entry>:crash' violations of the runner: they are sanitizer/crash evidence here
     for vv in am.violations:
         if vv['key'].endswith(':crash') or vv['key'].endswith(':hang'):
